@@ -224,6 +224,7 @@ func execStandalone(t *testing.T, plan any, out *Outcome) {
 		ci   int
 	}
 	calls := map[string]callRef{}
+	judgeFrontEndRetries(e, "standalone")
 	e.eachCall(func(task int, spec CallSpec, rec *sched.CallRec, res *CallResult) {
 		calls[fmt.Sprintf("%d.%d", task, rec.Index)] = callRef{spec, spec.Client % len(cfgs)}
 	})
